@@ -109,6 +109,20 @@ def _small_subst(A, pa, eps):
     return e
 
 
+
+def _singular(ctx, f, node, what, key, e):
+    """A kernel update whose expansion in the step has a pole (the small quantities dt, dv, theta
+    appear in a denominator) does not tend to the previous state as the step shrinks: a
+    consistency violation, not a limit of the analysis.  Returns True when reported."""
+    t = str(e)
+    if 'occurs inside inv(' in t or 'division by zero' in t:
+        ctx.ob('KER-CONSIST', False, None, '%s is regular in the step' % what, f=f, node=node,
+               key=key,
+               why='the %s divides by a quantity that vanishes with the step (%s): it does not '
+                   'tend to the previous state as dt -> 0' % (what, t[:100]))
+        return True
+    return False
+
 def ker_consist(ctx):
     ctx.rule('KER-CONSIST', 'one-step map is first-order consistent with the navigation '
              'equations built from earth.*, transform.perturb_lla, util.skew_matrix')
@@ -206,6 +220,8 @@ def ker_consist(ctx):
         try:
             c0, c1 = first_order(st)
         except (Unsupported, ZeroDivisionError, ValueError) as e:
+            if _singular(ctx, f, node, 'velocity %s update' % names[k], 'vel[%d]' % k, e):
+                continue
             raise AnalysisError('velocity update not analysable: %s' % e)
         act_v[k] = (c0, c1)
         ok0 = A.eq(c0, V[k])
@@ -240,6 +256,8 @@ def ker_consist(ctx):
                 ref = strip_wraps(A, ref)
             e0, e1 = A.series1(A.subst(ref, small), '@eps')
         except (Unsupported, ZeroDivisionError, ValueError) as e:
+            if _singular(ctx, f, node, 'position update (component %d)' % k, 'lla[%d]' % k, e):
+                continue
             raise AnalysisError('position update not analysable: %s' % e)
         ok = A.eq(c0, e0) and A.eq(c1, e1)
         ctx.ob('KER-CONSIST', ok, None,
@@ -271,6 +289,9 @@ def ker_consist(ctx):
             try:
                 c0, c1 = first_order(st, eva, sdefs_a, paa)
             except (Unsupported, ZeroDivisionError, ValueError) as e:
+                if _singular(ctx, f, node, 'attitude update [%d,%d]' % (a, b),
+                             'att[%d,%d]' % (a, b), e):
+                    continue
                 raise AnalysisError('attitude update not analysable: %s' % e)
             ok = eva.A.eq(c0, C.get((a, b))) and eva.A.eq(c1, exp_c1.get((a, b)))
             n_att += 1
